@@ -601,6 +601,61 @@ def gen_skeletons(repo, out, report):
     return {'used_new': len(used), 'used_visitor': len(vis), 'gc_run': len(gcs)}
 
 
+def gen_config_emit(repo, out, report):
+    """G11: every setter of ModuleConfig as the list of its field assignments (field, right-hand side);
+    G12: the skeleton of Module::emit_wasm: which section emitter / custom-section step runs under which condition, in order.
+    Pinned by theorems of C14 / C12 / C08: Model/EmitM.v emits the sections in exactly this order under exactly these switches."""
+    p, t = src_tree(repo, 'src/module/config.rs')
+    src = open(p).read()
+    setters = []
+    for m in re.finditer(r'pub fn (\w+)\s*(?:<[^>]*>)?\s*\(\s*&mut self', src):
+        name = m.group(1)
+        b = fn_body(t, name)
+        if b is None: raise Refuse('config setter %s: body not found' % name)
+        assigns = []
+        def walk(items):
+            for i, x in enumerate(items):
+                if is_id(x, 'self') and i + 3 < len(items) and is_p(items[i + 1], '.') and isinstance(items[i + 2], Tok) and is_p(items[i + 3], '=') and not (i + 4 < len(items) and is_p(items[i + 4], '=')):
+                    rhs = []
+                    for y in items[i + 4:]:
+                        if is_p(y, ';'): break
+                        rhs.append(y)
+                    assigns.append((items[i + 2].s, text(rhs).replace(' ', '')))
+                if isinstance(x, Group): walk(x.items)
+        walk(b.items)
+        setters.append((name, assigns))
+    if not setters: raise Refuse('no ModuleConfig setters found')
+    p2, t2 = src_tree(repo, 'src/module/mod.rs')
+    b = fn_body(t2, 'emit_wasm')
+    if b is None: raise Refuse('emit_wasm not found')
+    def ev_emit(items, i):
+        x = items[i]
+        if isinstance(x, Tok) and x.k == 'id' and x.s in ('emit', 'emit_func_section', 'emit_data_count', 'emit_name_section', 'apply_code_transform') and i + 1 < len(items) and is_g(items[i + 1], '()'):
+            recv = ''
+            if i >= 2 and is_p(items[i - 1], '.') and isinstance(items[i - 2], Tok): recv = items[i - 2].s + '.'
+            return recv + x.s
+        if is_id(x, 'section') and i >= 2 and is_p(items[i - 1], '.') and is_id(items[i - 2], 'wasm_module') and i + 1 < len(items) and is_g(items[i + 1], '()'):
+            inner = text(items[i + 1].items).replace(' ', '')
+            m2 = re.match(r'&wasm_encoder::(\w+)', inner)
+            return 'section(' + (m2.group(1) if m2 else inner) + ')'
+        if is_id(x, 'take') and i + 1 < len(items) and is_g(items[i + 1], '()'): return 'take(' + text(items[i + 1].items).replace(' ', '') + ')'
+        if is_id(x, 'self') and i + 3 < len(items) and is_p(items[i + 1], '.') and is_id(items[i + 2], 'customs') and is_p(items[i + 3], '='): return 'self.customs=' + text([y for y in items[i + 4:i + 5]]).replace(' ', '')
+        if is_id(x, 'continue'): return 'continue'
+        return None
+    sk = []; skeleton(b.items, [], sk, ev_emit)
+    def coq_list(l): return '[' + '; '.join('("%s", "%s")' % (a.replace('"', "'").replace('(*', '( *'), c.replace('"', "'").replace('(*', '( *')) for a, c in l) + ']'
+    o = ['(* GENERATED by /verif/translator/gen_more.py (G11, G12): ModuleConfig setters and the skeleton of Module::emit_wasm -- do not edit *)',
+         'From Coq Require Import List String. Import ListNotations. Open Scope string_scope.',
+         'Definition config_setters : list (string * list (string * string)) :=\n  [' + ';\n   '.join('("%s", %s)' % (n, coq_list(a)) for n, a in setters) + '].',
+         'Definition emit_wasm_skeleton : list (string * string) :=\n  ' + coq_list(sk) + '.']
+    content = '\n'.join(o) + '\n'
+    path = os.path.join(out, 'ConfigEmit.v')
+    try:
+        if open(path).read() != content: open(path, 'w').write(content)
+    except OSError: open(path, 'w').write(content)
+    return {'setters': len(setters), 'emit_wasm_steps': len(sk)}
+
+
 def run(repo, out, report, g):
     try:
         report['attrs'] = gen_attrs(repo, out, report)
@@ -609,6 +664,7 @@ def run(repo, out, report, g):
         report['par'] = gen_par(repo, out, report)
         report['sorts'] = gen_sorts(repo, out, report)
         report['gc_skeleton'] = gen_skeletons(repo, out, report)
+        report['config_emit'] = gen_config_emit(repo, out, report)
     except Refuse as e:
         import gen
         raise gen.Refuse(str(e))
